@@ -106,6 +106,9 @@ class SubPool(TaskPool):
     def extra_prop(self) -> int:
         """An extra read-only property."""
         return 42
+    def tune(self, level: int = 1, label: str = "x", limit: int = 3) -> str:
+        """Three options with the same initial letter."""
+        return f"{level}/{label}/{limit}"
     def scale(self, f: int, el: str = "m") -> str:
         """Parameters whose names are pieces of the word self."""
         return f"{f}{el}"
@@ -374,6 +377,12 @@ class CtlWorld:
                     self.release_all()
                 elif k == "stop_serving":
                     self.stop_serving()
+                elif k == "unimport":
+                    # the submodule has not been imported in this process yet, as far as the import system is concerned
+                    pkg, _, sub = c["module"].rpartition(".")
+                    sys.modules.pop(c["module"], None)
+                    if pkg in sys.modules and hasattr(sys.modules[pkg], sub):
+                        delattr(sys.modules[pkg], sub)
                 elif k == "rebind":
                     # user code rebinds a module attribute between two commands: a dotted path means what it names NOW
                     setattr(ctlfuncs, c["name"], getattr(ctlfuncs, c["to"]))
